@@ -19,7 +19,10 @@ RULE = ("exhaustive: every DAG on <=4 (quick) / <=5 (thorough) labelled nodes x 
         "latent subsets (all; size<=2 at n=4 in quick; 2 random subsets per 5-node DAG in thorough) together with "
         "include_latents in {True, False} for every start x observed subset (observed start nodes included); Markov "
         "blanket, moral graph, immoralities, ancestral graph, local and global independence listings, on DAG AND "
-        "BayesianNetwork objects (every DAG on <=4 nodes as a BayesianNetwork), built through add_node/add_edges_from, "
+        "BayesianNetwork objects (every DAG on <=4 nodes as a BayesianNetwork, half of them parameterised with CPDs), the "
+        "moral graph also through BayesianNetwork.to_markov_model() (same NODE set incl. isolated nodes / several components / "
+        "edgeless graphs, same edges, neighbours of every node, one factor per family) and of every ancestral graph through "
+        "both routes (ancestral graph -> moralize / to_markov_model), built through add_node/add_edges_from, "
         "the constructor (ebunch, latents) or weighted add_nodes_from/add_edges_from.  "
         "Generalisation classes (notes/GENERALISATION_CHECKLIST.md): "
         "A object sessions (gsess, dbn, nb, session): ONE DAG / BayesianNetwork / DynamicBayesianNetwork / NaiveBayes "
@@ -529,6 +532,9 @@ def run_rand(case, drv):
     # result independence (same machinery as the object sessions, no edit)
     S = Sess(case.get("cls", "DAG"), g, dict(enumerate(names)), nodes, edges, lat, drv, case["style"])
     S.fixed = [sorted(rng.sample(range(n), rng.randint(1, min(3, n)))) for _ in range(2)]
+    if case.get("cls") == "BN" and rng.random() < 0.5 and max([0] + [sum(1 for e in edges if e[1] == v) for v in nodes]) <= 6:
+        attach_cpds(S)
+        tags.append("bn with-cpds")
     b = S.q_round(rng, "rand", tags)
     if b:
         return b
@@ -978,6 +984,16 @@ class Sess(object):
             if self.snap(no) != before:
                 return bad("mutated-argument:nodes", self.where(stage=stage, ns=ns, form=form))
             tags.append("ancestral-as=" + form)
+            # ancestral graph, then its moral graph (the separation test of Lauritzen): DAG route and BN route
+            amoral = sorted({tuple(sorted(e)) for e in self.drv.call("c08_misc", [sorted(agn), [list(e) for e in age], 0, []])[1]})
+            am = ag.moralize()
+            an_ = sorted(self.ident(u) for u in am.nodes())
+            ae_ = sorted({tuple(sorted((self.ident(a), self.ident(b_)))) for a, b_ in am.edges()})
+            if an_ != sorted(agn) or ae_ != amoral:
+                return bad("impl!=model:ancestral-moralize", self.where(stage=stage, ns=ns, impl=[an_, ae_], model=[sorted(agn), amoral]))
+            b = self.q_markov(ag, agn, amoral, stage, "ancestral-to_markov_model", tags)
+            if b:
+                return b
         return None
 
     def q_misc(self, rng, stage, tags):
@@ -1005,6 +1021,9 @@ class Sess(object):
         if gm != mm or sorted(self.ident(u) for u in mg.nodes()) != sorted(self.nodes):
             return bad("impl!=model:session-moralize", self.where(stage=stage, impl=gm, model=mm))
         mg.add_edge(JUNK, self.nm(self.nodes[0]))
+        b = self.q_markov(g, self.nodes, mm, stage, "to_markov_model", tags)
+        if b:
+            return b
         if True:
             r = g.get_immoralities()
             gi = sorted({tuple(sorted((self.ident(a), self.ident(b_)))) for a, b_ in r})
@@ -1035,6 +1054,35 @@ class Sess(object):
                 return bad("impl!=model:session-local_independencies-list",
                            self.where(stage=stage, vs=vs2, impl=str(li), model=[list(map(sorted, t)) for t in exp]))
             tags.append("local-independencies-list")
+        return None
+
+    def q_markov(self, h, hnodes, moral_pairs, stage, what, tags):
+        """BayesianNetwork.to_markov_model(): the moral graph again, through the BN route -- the SAME node set (isolated
+        nodes, several components, edgeless graphs included) and the same edges as the model's moral graph; with CPDs one
+        factor per node on its family"""
+        if not hasattr(h, "to_markov_model"):
+            return None
+        mk = h.to_markov_model()
+        try:
+            kn = sorted(self.ident(u) for u in mk.nodes())
+            ke = sorted({tuple(sorted((self.ident(a), self.ident(b_)))) for a, b_ in mk.edges()})
+        except KeyError as e:
+            return bad("impl!=model:" + what, self.where(stage=stage, unknown_node=repr(e)))
+        if kn != sorted(hnodes) or ke != sorted(moral_pairs):
+            return bad("impl!=model:" + what, self.where(stage=stage, sub_nodes=sorted(hnodes), impl=[kn, ke],
+                                                         model=[sorted(hnodes), sorted(moral_pairs)]))
+        if getattr(self, "with_cpds", False) and h is self.g:
+            fam = sorted(sorted([v] + [u for (u, w) in self.edges if w == v]) for v in self.nodes)
+            got = sorted(sorted(self.ident(u) for u in f.scope()) for f in mk.get_factors())
+            if got != fam:
+                return bad("impl!=model:" + what + "-factors", self.where(stage=stage, impl=got, model=fam))
+        # a separation question on it: every node is there to be asked about
+        for v in hnodes:
+            nb_ = sorted(self.ident(u) for u in mk.markov_blanket(self.nm(v)))
+            if nb_ != sorted({a if b_ == v else b_ for (a, b_) in moral_pairs if v in (a, b_)}):
+                return bad("impl!=model:" + what + "-neighbours", self.where(stage=stage, v=v, impl=nb_))
+        mk.add_node(JUNK)
+        tags.append(what + (" isolated" if any(all(v not in e for e in moral_pairs) for v in hnodes) else " connected"))
         return None
 
     def q_minsep(self, rng, stage, tags, npairs=4):
@@ -1529,6 +1577,20 @@ def run_gsess(case, drv):
                                     case["style"], case["route"], case["qseed"]]), tags=sorted(set(tags)))
 
 
+def attach_cpds(S):
+    """a parameterised BayesianNetwork: one binary TabularCPD per node (uniform columns) on its family"""
+    from pgmpy.factors.discrete import TabularCPD
+    for v in S.nodes:
+        pa = [u for (u, w) in S.edges if w == v]
+        k = 2 ** len(pa)
+        if pa:
+            cpd = TabularCPD(S.nm(v), 2, [[0.5] * k, [0.5] * k], evidence=[S.nm(u) for u in pa], evidence_card=[2] * len(pa))
+        else:
+            cpd = TabularCPD(S.nm(v), 2, [[0.5], [0.5]])
+        S.g.add_cpds(cpd)
+    S.with_cpds = True
+
+
 def run_exhbn(case, drv):
     """a BayesianNetwork object for every DAG on <= 4 nodes: the structural routes (own get_markov_blanket)"""
     sub = dict(case, kind="exh", cls="BN")
@@ -1536,6 +1598,9 @@ def run_exhbn(case, drv):
     S = Sess("BN", g, dict(enumerate(names)), nodes, case["edges"], [], drv, "exh")
     rng = random.Random(len(case["edges"]) * 31 + case["n"])
     tags = ["exhbn n=%d" % case["n"]]
+    if (len(case["edges"]) + case["n"]) % 2 == 0:
+        attach_cpds(S)
+        tags.append("exhbn with-cpds")
     for f in (S.q_anc, S.q_misc):
         b = f(rng, "exhbn", tags)
         if b:
